@@ -14,7 +14,7 @@ PROPS = {
     "C02": {"level": "model_checking", "engines": [LINOP, ("index_maps", "index_maps", "run"), ("prox", "prox", "run"), ("nufft", "nufft", "run"), ("purity", "purity", "run")], "rule": LINOP_RULE, "assumptions": LINOP_ASSUME, "trusted": TLC_BASE},
     "C03": {"level": "model_checking", "engines": [LINOP], "rule": LINOP_RULE, "assumptions": LINOP_ASSUME, "trusted": TLC_BASE},
     "C04": {"level": "model_checking", "engines": [LINOP, ("interp", "interp", "run"), ("nufft", "nufft", "run")], "rule": LINOP_RULE, "assumptions": LINOP_ASSUME, "trusted": TLC_BASE},
-    "C15": {"level": "model_checking", "engines": [("alg_protocol", "alg_protocol", "run"), ("cg", "cg", "run"), ("descent", "descent", "run"), ("espirit", "espirit", "run")],
+    "C15": {"level": "model_checking", "engines": [("alg_protocol", "alg_protocol", "run"), ("cg", "cg", "run"), ("descent", "descent", "run"), ("espirit", "espirit", "run"), ("lls", "lls", "run")],
             "rule": "one case per Alg object observed through the trace hooks (driven along TLC-generated call sequences, inner solvers, and the repository's own tests) validated by TLC against AlgLoopTrace.tla; non-trivial = the object performed at least two updates",
             "assumptions": ["protocol model checked for max_iter 0..3 (quick) / 0..4 (thorough) with up to max_iter+2 hand-driven updates", "early-stop probe compares solution arrays bitwise after one further update"],
             "trusted": TLC_BASE + ["tla2tools Json module", "trace hooks in sigpy/_verif.py"]},
